@@ -154,6 +154,22 @@ def _folds(node, tree=None, depth=0):
     return out
 
 
+LOOP_VARS = ("i", "idx", "pos", "j")
+
+
+def _assigned(node):
+    """names of the option variables a keyword arm assigns (plain `x = ..`; the argument cursor is not an option)"""
+    out = set()
+
+    def v(n):
+        if n.get("k") == "Assign" and isinstance(n.get("l"), dict) and n["l"].get("k") == "Path":
+            nm = n["l"]["p"]
+            if nm not in LOOP_VARS:
+                out.add(nm)
+    A.walk(node, v)
+    return out
+
+
 def _validators(node):
     """names of functions called as `path(..)?;` with the value discarded (a call that can only reject)"""
     out = set()
@@ -348,6 +364,7 @@ def _r163(ck, tree):
              "command is a different command on the two paths" % (sorted(fo1), sorted(fo2)), "src/redis/executor/script_ops.rs:%d" % lua[0]["ln"],
              detail="both fold with %s" % sorted(fo1))
     nval = 0
+    nopt = 0
     probe = {"k": "Block", "stmts": [{"k": "Expr", "semi": True, "e": {"k": "Try", "e": {"k": "Call", "f": {"k": "Path", "p": "Self::check_probe"}, "args": []}}}]}
     ck.check(_validators(probe) == {"check_probe"}, "R16.3", "lua:validators:probe", "the reject-only-call matcher no longer recognises `Self::check(..)?;`",
              "rules/c16.py", detail="positive example matched")
@@ -382,6 +399,15 @@ def _r163(ck, tree):
                  "the client path rejects operands of %s through %s before building the command; redis.call builds the same command without "
                  "that test, so the same operands are refused from a client and executed from a script" % (cmd, sorted(v1 - v2)), where,
                  detail="reject-only calls in the client arm: %s" % sorted(v1))
+        # an option keyword assigns the same option variables on both paths (a keyword that also *clears* another option on one path
+        # only - "a later EX replaces an earlier PX" - gives the same words a different meaning from a script)
+        for k in sorted(k for k in t2 if k.startswith(cmd + "/") and k in t1 and not k.endswith("/_")):
+            a1, a2 = _assigned(t1[k]["body"]), _assigned(t2[k]["body"])
+            nopt += 1
+            ck.check(a1 == a2, "R16.3", "lua:%s:option-effect" % k.replace("/", ":"),
+                     "the option `%s` assigns %s when a client sends it and %s from redis.call: the same words build a different command on the "
+                     "two paths" % (k.replace("/", " "), sorted(a1), sorted(a2)), "src/redis/executor/script_ops.rs:%d" % t2[k]["ln"],
+                     detail="assigns %s" % sorted(a1))
         extra = s2["keywords"] - s1["keywords"]
         missing = s1["keywords"] - s2["keywords"]
         ck.check(not extra, "R16.3", "lua:%s:unknown-keywords" % cmd,
